@@ -475,6 +475,58 @@ def analyse_all(root):
     return done, refused
 
 
+COPY_FILES = {"Grid": "deepali/core/grid.py", "Cube": "deepali/core/cube.py", "SpatialTransform": "deepali/spatial/base.py",
+              "ParametricTransform": "deepali/spatial/parametric.py", "DataTensor": "deepali/data/tensor.py"}
+COPY_PINS = {"Grid": ["clone", "__deepcopy__", "align_corners", "align_corners_", "center", "center_", "origin", "origin_", "spacing",
+                      "spacing_", "direction", "direction_"],
+             "Cube": ["clone", "__deepcopy__", "center", "center_", "origin", "origin_", "direction", "direction_", "extent", "extent_"],
+             "SpatialTransform": ["__copy__", "condition", "condition_", "grid"],
+             "ParametricTransform": ["data", "data_", "link", "unlink", "unlink_"],
+             "DataTensor": ["__copy__", "__deepcopy__"]}
+
+
+def copy_tables(root):
+    import hashlib
+    out = []
+    rows, accs = [], []
+    for cls, rel in COPY_FILES.items():
+        tree = ast.parse(open(os.path.join(root, rel)).read())
+        cdef = [n for n in tree.body if isinstance(n, ast.ClassDef) and n.name == cls]
+        if len(cdef) != 1:
+            raise Refuse(f"class {cls} not found")
+        methods = {}
+        for n in cdef[0].body:
+            if isinstance(n, ast.FunctionDef):
+                methods[n.name] = n
+        for m in COPY_PINS[cls]:
+            if m not in methods:
+                raise Refuse(f"{cls}.{m} not found")
+            fn = methods[m]
+            body = fn.body[1:] if (fn.body and isinstance(fn.body[0], ast.Expr) and isinstance(getattr(fn.body[0], "value", None), ast.Constant)) else fn.body
+            txt = "\n".join(ast.unparse(b) for b in body)
+            rows.append(f"  ({cstr(cls + '.' + m)}, {cstr(hashlib.sha256(txt.encode()).hexdigest()[:20])})")
+        # with-argument accessors: methods whose body contains  shallow_copy(self).<setter>_(...)
+        for name, fn in sorted(methods.items()):
+            if name.endswith("_") or name.startswith("_"):
+                continue
+            for node in ast.walk(fn):
+                if isinstance(node, ast.Call) and isinstance(node.func, ast.Attribute) and isinstance(node.func.value, ast.Call) \
+                        and ast.unparse(node.func.value) == "shallow_copy(self)":
+                    accs.append(f"  ({cstr(cls + '.' + name)}, {cstr(node.func.attr)})")
+        if cls == "SpatialTransform":
+            cp = methods["__copy__"]
+            loops = [n for n in ast.walk(cp) if isinstance(n, ast.For)]
+            if len(loops) != 1 or not isinstance(loops[0].iter, (ast.Tuple, ast.List)):
+                raise Refuse("SpatialTransform.__copy__: expected one loop over a tuple of container names")
+            names = [ast.literal_eval(e) for e in loops[0].iter.elts]
+            out.append("(* SpatialTransform.__copy__: the __dict__ entries that are copied (every other container is shared) *)")
+            out.append("Definition gen_copied_containers : list string := [" + "; ".join(cstr(n) for n in names) + "].\n")
+    out.append("(* with-argument accessors implemented as shallow_copy(self).<setter>(...) *)")
+    out.append("Definition gen_copy_accessors : list (string * string) := [\n" + ";\n".join(accs) + "].\n")
+    out.append("Definition gen_copy_fingerprints : list (string * string) := [\n" + ";\n".join(rows) + "].\n")
+    return out
+
+
 def generate(loader):
     done, refused = analyse_all(loader.root)
     out = ["From Coq Require Import String.", "From DV Require Import Model.Heap.", "Local Close Scope fld_scope.", "Local Open Scope nat_scope.", ""]
@@ -501,4 +553,5 @@ def generate(loader):
     out.append("Definition gen_skeletons : list skel := [\n" + ";\n".join(rows) + "].\n")
     out.append("Definition gen_refused : list (string * string) := [\n"
                + ";\n".join(f"  ({cstr(a)}, {cstr(b)})" for a, b in sorted(refused)) + "].\n")
+    out += copy_tables(loader.root)
     return "\n".join(out)
